@@ -61,7 +61,7 @@ def declared_for(config_type: Any) -> dict[str, dict[str, Any]]:
 
     by_cls: dict[Any, dict[str, dict[str, Any]]] = {}
     for cls, attr, section, positional, short, const, hidden in _VERIF_DECLARED_FIELDS:
-        by_cls.setdefault(cls, {})[attr] = {"cls": cls.__qualname__, "section": section, "positional": positional, "short": short, "hidden": hidden}
+        by_cls.setdefault(cls, {})[attr] = {"cls": cls.__qualname__, "section": section, "positional": positional, "short": short, "hidden": hidden, "const": const}
     out: dict[str, dict[str, Any]] = {}
     for c in config_type.__mro__:
         for attr, d in by_cls.get(c, {}).items():
@@ -418,6 +418,32 @@ def check_cell(name: str, command: Any, cell: dict[str, Any], subset: tuple[bool
     return out, src
 
 
+def check_bare_const(name: str, command: Any, cell: dict[str, Any], subset: tuple[bool, bool], d: Path, base: list[str]) -> list[tuple[str, str]]:
+    """An option declared with a const value, given on the command line without a value: the effective value is the declared
+    const - the command line wins whatever the environment or the config file hold for that option."""
+    attr, kind, dd = cell["option"], cell["kind"], cell["decl"]
+    env, file_ = subset
+    long_opt = "--" + attr.replace("_", "-")
+    args = _without(base, long_opt) + [long_opt]
+    envd: dict[str, str] = {}
+    filed: dict[str, Any] = {}
+    other = values_for(kind, 2, d)
+    if env:
+        envd[f"GALLIA_{attr.upper()}"] = other[2]
+    if file_:
+        if dd["section"] is None:
+            return []
+        filed = nested(dd["section"], attr, other[3])
+    status, cfg, err = parse(command, args, envd, filed)
+    ctx = f"{name} {attr} ({kind}, const={dd['const']!r}) bare flag on the command line, env={envd} file={filed}"
+    if status != "ok":
+        return [(f"C18/const-flag/rejected/{'+'.join(n for n, on in zip(('env', 'file'), subset) if on) or 'cli-only'}", f"{ctx}: {status} {err[-200:]}")]
+    got = getattr(cfg, attr)
+    if got != dd["const"]:
+        return [(f"C18/const-flag/wrong-value/{'+'.join(n for n, on in zip(('env', 'file'), subset) if on) or 'cli-only'}", f"{ctx}: effective value {got!r}, the declared const is {dd['const']!r}")]
+    return []
+
+
 def _without(base: list[str], long_opt: str) -> list[str]:
     """the solver's dummy value for a required option must not compete with the sources under test"""
     args = list(base)
@@ -600,6 +626,12 @@ def run_shard(spec: dict[str, Any], seed: int) -> Collector:
                         col.case((name, cell["option"], subset, rot), sum(subset) >= 2, cls=f"{cell['kind']}/{label}", sample=case)
                         for b, m in res:
                             col.violation(b, case, m)
+                if cell["decl"].get("const") is not None and "Undefined" not in type(cell["decl"]["const"]).__name__ and cell["kind"].rstrip("?") in ("int", "autoint", "float", "str") and not cell["decl"]["positional"]:
+                    for sub2 in itertools.product([False, True], repeat=2):
+                        case = {"kind": "const", "command": name, "option": cell["option"], "subset": list(sub2)}
+                        col.case((name, cell["option"], "const", sub2), True, cls="const-flag/" + ("+".join(n for n, on in zip(("env", "file"), sub2) if on) or "cli-only"), sample=case)
+                        for b, m in check_bare_const(name, command, cell, sub2, d, base):
+                            col.violation(b, case, m)
                 if cell["kind"].rstrip("?") in INVALID_KINDS and not cell["decl"]["positional"]:
                     for source in ("cli", "env", "file", "cli+env", "cli+file", "env+file"):
                         case = {"kind": "invalid", "command": name, "option": cell["option"], "source": source}
@@ -634,6 +666,8 @@ def replay(witness: Any) -> list[tuple[str, str]]:
         cell = next(c for c in option_cells(w["command"], command, d) if c["option"] == w["option"])
         if w["kind"] == "invalid":
             return check_invalid(w["command"], command, cell, w["source"], base, d)
+        if w["kind"] == "const":
+            return check_bare_const(w["command"], command, cell, tuple(w["subset"]), d, base)
         if not cell["intact"] or cell["kind"] is None:
             return []
         return check_cell(w["command"], command, cell, tuple(w["subset"]), d, base, w.get("rot", 0))[0]
